@@ -84,8 +84,6 @@ def _eligible(fn: ast.FunctionDef, anchored) -> bool:
     a = fn.args
     if a.vararg or a.kwarg or a.kwonlyargs:
         return False
-    if _has(fn, ast.Lambda):
-        return False
     n_stmts = 0
     for n in _walk_own(fn):
         if n is fn:
@@ -380,6 +378,15 @@ class _Inliner:
                     local_names.add(x.name)
         if selfname is not None and selfname in local_names:
             return None
+        # a lambda inside the helper must not capture the helper's own variables (they are renamed, the lambda is not)
+        own = local_names | set(params_rest)
+        for n in body:
+            for lam in ast.walk(n):
+                if isinstance(lam, ast.Lambda):
+                    largs = {a.arg for a in lam.args.posonlyargs + lam.args.args + lam.args.kwonlyargs}
+                    free = {x.id for x in ast.walk(lam.body) if isinstance(x, ast.Name)} - largs
+                    if free & own:
+                        return None
         mapping = {n: tag + n for n in local_names | set(params_rest)}
         try:
             new_body = _elim(body, [], ret, call)
